@@ -83,21 +83,30 @@ pub fn read_roff(doc: &str, rendered: bool) -> Result<Vec<Segment>, String> {
 }
 
 fn unescape(raw: &str, rendered: bool) -> Result<(Font, String), String> {
-    let (font, body) = if let Some(r) = raw.strip_prefix("\\fB") {
-        (Font::Bold, r.strip_suffix("\\fR").ok_or_else(|| format!("bold text without closing \\fR: {raw:?}"))?)
-    } else if let Some(r) = raw.strip_prefix("\\fI") {
-        (Font::Italic, r.strip_suffix("\\fR").ok_or_else(|| format!("italic text without closing \\fR: {raw:?}"))?)
-    } else {
-        (Font::Roman, raw)
-    };
+    // font escapes may stand anywhere (one pair around the whole text, or one pair per line): every visible character
+    // of the segment must come out in one and the same font, and the font is back to roman at the end
     let mut out = String::new();
-    let cs: Vec<char> = body.chars().collect();
+    let cs: Vec<char> = raw.chars().collect();
     let mut i = 0;
+    let mut current = Font::Roman;
+    let mut first_switch: Option<Font> = None;
+    let mut seg_font: Option<Font> = None;
+    let mut line_started = false;
     while i < cs.len() {
         let c = cs[i];
         if c != '\\' {
             if rendered && c == '\'' {
                 return Err(format!("bare apostrophe in render() output: {raw:?}"));
+            }
+            if c == '\n' {
+                line_started = false;
+            } else {
+                line_started = true;
+                match seg_font {
+                    None => seg_font = Some(current),
+                    Some(f) if f != current => return Err(format!("the text of one segment is set in more than one font: {raw:?}")),
+                    _ => {}
+                }
             }
             out.push(c);
             i += 1;
@@ -106,35 +115,66 @@ fn unescape(raw: &str, rendered: bool) -> Result<(Font, String), String> {
         match cs.get(i + 1) {
             Some('\\') => {
                 out.push('\\');
+                line_started = true;
+                if seg_font.is_none() {
+                    seg_font = Some(current);
+                } else if seg_font != Some(current) {
+                    return Err(format!("the text of one segment is set in more than one font: {raw:?}"));
+                }
                 i += 2;
             }
             Some('-') => {
                 out.push('-');
+                line_started = true;
+                if seg_font.is_none() {
+                    seg_font = Some(current);
+                } else if seg_font != Some(current) {
+                    return Err(format!("the text of one segment is set in more than one font: {raw:?}"));
+                }
                 i += 2;
+            }
+            Some('f') if matches!(cs.get(i + 2), Some('B') | Some('I') | Some('R') | Some('P')) => {
+                current = match cs[i + 2] {
+                    'B' => Font::Bold,
+                    'I' => Font::Italic,
+                    _ => Font::Roman,
+                };
+                if first_switch.is_none() {
+                    first_switch = Some(current);
+                }
+                i += 3;
             }
             Some('&') => {
                 // zero-width: only legitimate in front of a control character at the start of a line
-                let at_line_start = i == 0 || cs[i - 1] == '\n';
                 let protects = matches!(cs.get(i + 2), Some('.') | Some('\'')) || (rendered && cs[i + 2..].starts_with(&['\\', '*', '(', 'A', 'q']));
-                if !at_line_start || !protects {
+                if line_started || !protects {
                     return Err(format!("unexpected \\& at offset {i} of {raw:?}"));
                 }
                 i += 2;
             }
             Some('*') if rendered && cs[i + 1..].starts_with(&['*', '(', 'A', 'q']) => {
                 out.push('\'');
+                line_started = true;
+                if seg_font.is_none() {
+                    seg_font = Some(current);
+                } else if seg_font != Some(current) {
+                    return Err(format!("the text of one segment is set in more than one font: {raw:?}"));
+                }
                 i += 5;
             }
             other => return Err(format!("text contains the unescaped roff escape \\{other:?} at offset {i}: {raw:?}")),
         }
     }
+    if current != Font::Roman {
+        return Err(format!("the font is not switched back to roman at the end of the segment: {raw:?}"));
+    }
     // a text line must not begin with a control character
-    for l in body.split('\n') {
-        if font == Font::Roman && (l.starts_with('.') || l.starts_with('\'')) {
+    for l in raw.split('\n') {
+        if l.starts_with('.') || l.starts_with('\'') {
             return Err(format!("text line {l:?} would be read as a request"));
         }
     }
-    Ok((font, out))
+    Ok((seg_font.or(first_switch).unwrap_or(Font::Roman), out))
 }
 
 fn colour_name(c: Option<Col>) -> String {
